@@ -609,6 +609,11 @@ def handle_end_progs(state: TokenizerState) -> Iterator[TokenInfo]:
     if state.in_braces() or (not state.end_progs):  # in case the state changed above
         return
 
+    if matched:
+        # a piece of the f-string was consumed (a field opened, a field or format spec closed): the scan loop comes
+        # back for what follows on this line - it may be the closing quote, not string text
+        return
+
     if (
         (state.pos == 0)  # called at start of the line
         or ((state.in_multi_line_string()) or (state.in_continued_string()))
